@@ -65,6 +65,7 @@ def linear_rules(ctx):
     ctx.check(len(idx) == 1, R + '/same-index', 'T-CARRY', b.name, 'probe, fold and removal use different indices %s' % sorted(idx), b.site())
     ret_is_used(ctx, R, b)
     bound_rule(ctx, R, 'all-terms', b, bl, h, ('terms',), 'v1::Linear', 'the term loop')
+    pe.no_bypass(ctx, R + '/all-terms/no-bypass', b, h, 'the term loop', ('v1::Linear', 'terms'))
 
 
 def writes_to_self_field(b, adt, field):
@@ -113,7 +114,9 @@ def quadratic_rules(ctx):
         ex = T.expr(b, c.args[1]); const_l = ex[1] if ex[0] in ('local', 'place') else None
         map_l = pe.coll_root(b, c.args[0])
     ctx.check(len(news) == 1 and const_l is not None, R + '/result/linear-new', 'T-CARRY', b.name, 'the new linear part is not built by Linear::new(map, constant)', b.site())
-    ren = {'acc:_%d' % const_l: 'constant'} if const_l is not None else {}
+    # the folded constant may be handed from one local to another (phase extracted into a helper that returns it)
+    cls = pe.acc_class(b, const_l) if const_l is not None else set()
+    ren = {'acc:_%d' % l: 'constant' for l in cls}
     maps = set()
     # ---- linear-part loop
     h1, bl1 = pe.loop_with(b, p_id)
@@ -124,9 +127,10 @@ def quadratic_rules(ctx):
     # constant starts from the old linear part's constant (0 when absent):
     #   self.linear.as_ref().map_or(0.0, |l| l.constant)  ==  let mut c = 0.0; if let Some(l) = &self.linear { c = l.constant; .. }
     if const_l is not None:
-        init, ups = T.accumulator(b, const_l)
+        init = [(x, bi) for l in cls for x, bi in pe.acc_defs(b, l)[0]
+                if not (T.strip_wrappers(x)[0] == 'local' and T.strip_wrappers(x)[1] in cls)]      # hand-overs inside the class are not initialisations
         zero = [bi for x, bi in init if pe._is_zero(x)]
-        old = [bi for x, bi in init if ('v1::Linear', 'constant') in T.expr_fields(x) and ('v1::Quadratic', 'linear') in pe.deep_fields(b, x)]
+        old = [bi for x, bi in init if ('v1::Linear', 'constant') in T.expr_fields(x) and pe.rooted_in_self_field(ctx, b, x, 'v1::Quadratic', 'linear')]
         other = [bi for x, bi in init if bi not in zero and bi not in old]
         okc = bool(old) and not other and not any(z in b.reach([o]) for z in zero for o in old) \
             and all(pe.only_on_some_side(ctx, b, o, 'v1::Quadratic', 'linear') for o in old)
@@ -154,12 +158,13 @@ def quadratic_rules(ctx):
             g2 = []
             for b2, st2 in float_cmp_sites(b, ('Eq',)):
                 ops = st2['rv']['ops']
-                if any(o['k'] == 'const' and o['v'] in ('0f64', '-0f64') for o in ops) and any(T.expr(b, o) in (('local', const_l), ('place', const_l, [])) for o in ops):
+                if any(o['k'] == 'const' and o['v'] in ('0f64', '-0f64') for o in ops) and any(T.expr(b, o)[0] in ('local', 'place') and T.expr(b, o)[1] in cls and not (len(T.expr(b, o)) > 2 and T.expr(b, o)[2]) for o in ops):
                     g2 += T.guards_from_local(b, st2['dst']['l'], b2)
             def only_true(g): return g.true_bb is not None and nb in pe.walk(b, [g.true_bb])[0] and (g.false_bb is None or nb not in pe.walk(b, [g.false_bb])[0])
             ctx.check(any(only_true(g) for g in g1) and any(only_true(g) for g in g2), R + '/result/none-only-when-empty', 'T-GUARD', b.name, 'linear part is dropped although coefficients or a constant remain', b.site(nb))
     ret_is_used(ctx, R, b)
     bound_rule(ctx, R, 'all-entries', b, bl2, h2, ('rows', 'columns', 'values'), 'v1::Quadratic', 'the main loop')
+    pe.no_bypass(ctx, R + '/all-entries/no-bypass', b, h2, 'the main loop')
 
 
 def polynomial_rules(ctx):
@@ -180,6 +185,7 @@ def polynomial_rules(ctx):
     loop_must(ctx, R + '/every-id', b, inner, lambda c: c is pr[0], 'state.get(id)')
     pe.no_early_exit(ctx, R + '/every-id/no-early-exit', b, inner)
     pe.no_early_exit(ctx, R + '/collect/every-term/no-early-exit', b, outer)
+    pe.no_bypass(ctx, R + '/collect/every-term/no-bypass', b, outer[1], 'the loop over the monomials', ('v1::Polynomial', 'terms'))
     # ---- what happens to an id in each case, including what is done later to the vector it was pushed to
     raw = pe.table(ctx, b, pr, h, 'v1::Polynomial')
     info = pe.PolyInfo(ctx, b, outer)
@@ -242,6 +248,23 @@ def delegate_rules(ctx):
             if tys and arm and tys[0] == arm[0] and T.access_path(b, c.args[1])[1] == 2: got[tys[0]] = c
         ctx.check(set(got) == set(want), R + '/Function/arms', 'T-BRANCHFX', b.name, 'arms delegating to their payload: %s, expected %s' % (sorted(got), sorted(want)), b.site())
         pe.errflow_calls(ctx, R + '/Function/errors', b, pes, 'payload partial_evaluate')
+        # no success exit bypasses the payload's kernel: assuming self.function holds variant V, every path to an Ok-exit
+        # passes V's partial_evaluate (a "constant fast path" in front of / inside the match would skip it)
+        fad = ctx.F.adt('v1::function::Function')
+        names = [v['name'] for v in fad['variants']] if fad else []
+        for V, c in sorted(got.items()):
+            if V not in names:
+                ctx.lost(R + '/Function/no-bypass/' + V, 'variant %s of v1::function::Function' % V); continue
+            def assume(pl, V=V):
+                fs, root, calls = T.access_path(b, {'k': 'copy', 'pl': pl}, transparent=pe.OPTION_VIEW)
+                named = [x for x in fs if 'v1::' in x[0]]
+                if root != 1 or named != [('v1::Function', 'function')]: return None
+                if fs[-1] == ('v1::Function', 'function'): return 1                       # the Option is Some
+                if fs[-1][0].endswith('Option::Some') and fs[-2:-1] == [('v1::Function', 'function')]: return names.index(V)
+                return None
+            r = pe.walk(b, [0], avoid={c.bb}, assume=assume)[0]
+            ctx.check(not (r & b.strict_ok_exits()), R + '/Function/no-bypass/' + V, 'T-MUSTCALL', b.name,
+                      'a %s function can return Ok without partially evaluating its payload (success exit that bypasses the kernel)' % V, b.site(c.bb))
         # on the arm of a variant the function returns what the payload returned: `Ok(match .. { V(x) => x.pe(state)?, .. })`
         # == `match .. { V(x) => x.pe(state), .. => Ok(empty) }`
         notret = sorted(k for k, c in got.items() if not pe.result_reaches_return(ctx, b, c))
@@ -255,6 +278,11 @@ def delegate_rules(ctx):
         for c in pes:
             res = pe.errflow(b, c.dst['l'])
             ctx.check(not [h for k, h in res if k == 'bad'], R + '/%s/returns-result' % ty.split('::')[-1], 'T-ERRFLOW', b.name, 'result of the inner partial_evaluate is not returned / propagated', b.site(c.bb))
+        for c in pes[:1]:
+            if ty.endswith('RemovedConstraint'):
+                ctx.check(pe.before_every_ok(b, {c.bb}), R + '/RemovedConstraint/no-bypass', 'T-MUSTCALL', b.name, 'an Ok-exit is reachable without partially evaluating the constraint', b.site(c.bb))
+            else:
+                pe.must_pass_or_none(ctx, R + '/Constraint/no-bypass', b, c, 'v1::Constraint', 'function', 'partially evaluating the function')
         if ty.endswith('RemovedConstraint'):
             # a removed constraint without constraint is an error: `.context(..)?` == `.ok_or_else(..)?` == `match { None => bail!() }` == let-else
             n, bad = pe.none_is_error(ctx, b, 'v1::RemovedConstraint', 'constraint')
@@ -334,4 +362,4 @@ def instance_rules(ctx):
 def check(ctx):
     linear_rules(ctx); quadratic_rules(ctx); polynomial_rules(ctx); delegate_rules(ctx); instance_rules(ctx)
     pe.unmark(ctx)
-    ctx.floor('C03.linear', 8); ctx.floor('C03.quadratic', 17); ctx.floor('C03.polynomial', 17); ctx.floor('C03.delegate', 10); ctx.floor('C03.instance', 41)
+    ctx.floor('C03.linear', 9); ctx.floor('C03.quadratic', 18); ctx.floor('C03.polynomial', 18); ctx.floor('C03.delegate', 15); ctx.floor('C03.instance', 41)
